@@ -223,6 +223,9 @@ def check_env():
     import warnings
 
     warnings.filterwarnings("ignore")
+    import logging
+
+    logging.disable(logging.CRITICAL)
     try:
         import bob.learn.em as pkg
     except Exception as e:  # the tree under test does not import: that is a finding of its own
